@@ -162,7 +162,7 @@ def make_laws(root, alts, n, strat="none", leafkind="int", props=("C05",), known
     return h, dict(reset=common.nbdime_reset)
 
 
-def make_triples(root, alts, n, strat="none", leafkind="int", props=("C05",), known=()):
+def make_triples(root, alts, n, strat="none", leafkind="int", props=("C05",), known=(), keys=("a", "b")):
     """Arbitrary triples (b, l, r): symmetry (C05), decisions (C09, C11),
     purity (C13)."""
     alts_ = getattr(docs, alts)
@@ -170,7 +170,7 @@ def make_triples(root, alts, n, strat="none", leafkind="int", props=("C05",), kn
     def gen(E, name, k):
         if root == "L":
             return docs.pick_list(E, name, alts_, k, leafkind, n=k)
-        return docs.pick_dict(E, name, alts_, ("a", "b"), leafkind)
+        return docs.pick_dict(E, name, alts_, keys, leafkind)
 
     def h(E):
         import nbdime
@@ -402,6 +402,9 @@ def triple_shards(tier, props, known, strats=("none",)):
         out.append(("make_triples", "tri-dict-%s" % s,
                     dict(root="D", alts="ALTS_MERGE" if tier == "thorough" else "ALTS_MERGE_S",
                          n=(0, 0, 0), strat=s, **kw)))
+        # a key that looks like an integer next to an ordinary one, nested
+        out.append(("make_triples", "tri-dict-intkey-%s" % s,
+                    dict(root="D", alts="ALTS_INTKEY", n=(0, 0, 0), strat=s, keys=("1", "b"), **kw)))
     return out
 
 
